@@ -394,7 +394,7 @@ def gen_cases():
     for name in NAMES:
         for oi, o in enumerate(OPTSETS):
             for pi, ops in enumerate(OPERANDS):
-                if quick and rng.random() > (0.4 if pi < 3 else 0.1):
+                if quick and rng.random() > (0.3 if pi < 3 else 0.08):
                     continue
                 how = rng.choice(['symlink', 'execa'])
                 argv = o + ops if rng.random() < 0.7 else ops + o
@@ -422,7 +422,7 @@ def gen_cases():
         for o in bsets:
             reps = 1 if quick else 4
             for _ in range(reps):
-                if quick and rng.random() > 0.45:
+                if quick and rng.random() > 0.35:
                     continue
                 src = [rng.randrange(4) for _ in o]
                 if rng.random() < 0.5:
@@ -509,7 +509,7 @@ def gen_cases():
            '--keep', '--small', '--sequential', '--verbose', '--quiet',
            '--repetitive-fast', '--repetitive-best', '--exponential', '-x',
            '--bogus', '-n0', '-kn', '-dm', 'nofile', '-k', '-k', '-d', '-z']
-    nd = 300 if quick else 6000
+    nd = 250 if quick else 6000
     for _ in range(nd):
         n = rng.randrange(0, 6)
         toks = [rng.choice(voc) for _ in range(n)]
@@ -624,7 +624,7 @@ def main():
                     tcases.append(c)
     if ck.quick:
         ck.rng.shuffle(tcases)
-        tcases = tcases[:160]
+        tcases = tcases[:120]
     rc, treplies, err = batch([ck.driver()], [
         'clitty %d %d %s' % (c['tty'][0], c['tty'][1], driver_line(c)[4:])
         for c in tcases])
